@@ -157,6 +157,10 @@ structure Proc where
   tbl : Store
   scn : Store
   dflt : Store := []     -- handler-level state: the server class's default `settings` of a begin-session request
+  -- (The cell stands for every kind of state that outlives a request in the process: module globals, class attributes and —
+  --  wave 10 — mutable DEFAULT ARGUMENTS of functions (`def f(…, _applied={})`: one object per function for the whole process).
+  --  A memo kept there and keyed by manager / scenario NAMES is reached by the sessions of all instances; the harness snapshots
+  --  and restores these objects per server and records what requests write into them.)
 deriving DecidableEq, Repr
 
 /-- write settings into the MODEL of an object (`change_equation` / `change_points`).  Returns (process cell, own store). -/
